@@ -234,4 +234,88 @@ theorem Rx.matchLen_pos (r : Rx) (hn : r.nullable = false) (s : List Char) (n : 
   have hm : n ∈ r.ends s 0 := List.mem_of_mem_head? h
   exact Rx.ends_gt s r hn 0 n hm
 
+/-! ### membership lemmas (for reasoning about a pattern of known shape) -/
+
+theorem Rx.ends_seq {src : List Char} {a b : Rx} {p e : Nat} :
+    e ∈ (Rx.seq a b).ends src p ↔ ∃ m ∈ a.ends src p, e ∈ b.ends src m := by
+  simp only [Rx.ends, mem_dedupN, List.mem_flatMap]
+
+theorem Rx.ends_alt {src : List Char} {a b : Rx} {p e : Nat} :
+    e ∈ (Rx.alt a b).ends src p ↔ e ∈ a.ends src p ∨ e ∈ b.ends src p := by
+  simp only [Rx.ends, mem_dedupN, List.mem_append]
+
+theorem Rx.ends_set {src : List Char} {rs : List (Nat × Nat)} {p e : Nat} :
+    e ∈ (Rx.set rs).ends src p ↔ ∃ c, src[p]? = some c ∧ inRanges rs c.toNat = true ∧ e = p + 1 := by
+  simp only [Rx.ends]
+  cases hc : src[p]? with
+  | none => simp
+  | some c =>
+    simp only [Option.some.injEq, exists_eq_left']
+    by_cases hin : inRanges rs c.toNat = true
+    · simp [hin]
+    · simp [hin]
+
+theorem Rx.ends_bol {src : List Char} {p e : Nat} : e ∈ Rx.bol.ends src p ↔ p = 0 ∧ e = p := by
+  simp only [Rx.ends]
+  split
+  · rename_i h; simp [h]
+  · rename_i h; simp [h]
+
+/-- the characters a loop over one character set consumes all lie in the set -/
+theorem repEnds_set_chars (src : List Char) (rs : List (Nat × Nat)) (g : Bool) (mn : Nat) (mx : Option Nat) :
+    ∀ fuel count p e, e ∈ repEnds (fun q => (Rx.set rs).ends src q) g mn mx fuel count p →
+      p ≤ e ∧ ∀ i, p ≤ i → i < e → ∃ c, src[i]? = some c ∧ inRanges rs c.toNat = true := by
+  intro fuel
+  induction fuel with
+  | zero =>
+    intro count p e h
+    simp only [repEnds] at h
+    split at h
+    · simp at h; subst h; exact ⟨Nat.le_refl _, fun i h1 h2 => by omega⟩
+    · simp at h
+  | succ n ih =>
+    intro count p e h
+    rcases repEnds_succ_mem _ g mn mx n count p e h with ⟨_, h⟩ | ⟨e', he', _, hin⟩
+    · subst h; exact ⟨Nat.le_refl _, fun i h1 h2 => by omega⟩
+    · obtain ⟨c, hc, hr, he'⟩ := Rx.ends_set.mp he'
+      subst he'
+      obtain ⟨h1, h2⟩ := ih _ _ _ hin
+      refine ⟨by omega, fun i hi1 hi2 => ?_⟩
+      by_cases hip : i = p
+      · subst hip; exact ⟨c, hc, hr⟩
+      · exact h2 i (by omega) hi2
+
+theorem Rx.ends_rep_set {src : List Char} {rs : List (Nat × Nat)} {g : Bool} {mn : Nat} {mx : Option Nat} {p e : Nat}
+    (h : e ∈ (Rx.rep g mn mx (.set rs)).ends src p) :
+    p ≤ e ∧ ∀ i, p ≤ i → i < e → ∃ c, src[i]? = some c ∧ inRanges rs c.toNat = true := by
+  simp only [Rx.ends] at h
+  exact repEnds_set_chars src rs g mn mx _ _ _ _ h
+
+/-- every range of `rs` lies inside one range of `al` -/
+def rangesSub (rs al : List (Nat × Nat)) : Bool :=
+  rs.all (fun r => al.any (fun a => decide (a.1 ≤ r.1) && decide (r.2 ≤ a.2)))
+
+theorem inRanges_sub {rs al : List (Nat × Nat)} (h : rangesSub rs al = true) {n : Nat} (hn : inRanges rs n = true) :
+    inRanges al n = true := by
+  unfold inRanges at hn ⊢
+  rw [List.any_eq_true] at hn ⊢
+  obtain ⟨r, hr, hin⟩ := hn
+  unfold rangesSub at h
+  rw [List.all_eq_true] at h
+  have := h r hr
+  rw [List.any_eq_true] at this
+  obtain ⟨a, ha, hsub⟩ := this
+  refine ⟨a, ha, ?_⟩
+  simp only [Bool.and_eq_true, decide_eq_true_eq] at hin hsub ⊢
+  omega
+
+/-- the members of a slice are characters at positions inside it -/
+theorem mem_slice {α} {l : List α} {a b : Nat} {c : α} (h : c ∈ (l.take b).drop a) : ∃ i, a ≤ i ∧ i < b ∧ l[i]? = some c := by
+  rw [List.mem_iff_getElem?] at h
+  obtain ⟨j, hj⟩ := h
+  rw [List.getElem?_drop, List.getElem?_take] at hj
+  split at hj
+  · exact ⟨a + j, by omega, by assumption, hj⟩
+  · cases hj
+
 end MdIt
